@@ -1,4 +1,6 @@
 
+import operator
+
 import numpy as np
 
 from astropy.nddata.mixins.ndslicing import NDSlicingMixin
@@ -11,8 +13,11 @@ def _normalize_negative_indices(axis_item, axis_length):
     """
     Convert negative entries of an integer or slice item to non-negative equivalents.
     """
+    # Integers of a narrow numpy type (numpy.int8, numpy.uint8 ...) overflow or wrap when the
+    # axis length or another slice's start is added to them: work with Python integers.
     if isinstance(axis_item, slice):
-        start, stop = axis_item.start, axis_item.stop
+        start, stop = (None if bound is None else operator.index(bound)
+                       for bound in (axis_item.start, axis_item.stop))
         if start is not None and start < 0:
             start = max(start + axis_length, 0)
         if stop is not None and stop < 0:
@@ -20,6 +25,7 @@ def _normalize_negative_indices(axis_item, axis_length):
         # A step of 1 is no step; the WCS slicing machinery cannot combine slices that carry one.
         step = None if axis_item.step == 1 else axis_item.step
         return slice(start, stop, step)
+    axis_item = operator.index(axis_item)
     if axis_item < 0:
         if axis_item < -axis_length:
             raise IndexError(f"index {axis_item} is out of bounds for axis with size {axis_length}")
